@@ -225,8 +225,8 @@ Proof.
     { unfold starts_with, s_doctype. cbn [strip_prefix]. change (60 =? 60) with true. cbv iota.
       apply N.eqb_neq in H33. rewrite (N.eqb_sym 33), H33. reflexivity. }
     rewrite Hdt.
-    change (parse_element F None (b :: r ++ S3)) with (parse_element_with (parse_content F) None ((b :: r) ++ S3)).
-    assert (He' := parse_element_ok_mono fe F None _ _ Hel ltac:(unfold F; lia)). unfold parse_element in He'. rewrite He'.
+    change (b :: r ++ S3) with ((b :: r) ++ S3).
+    assert (He' := parse_element_ok_mono fe F None _ _ Hel ltac:(unfold F; lia)). rewrite He'.
     cbn [pbind]. rewrite (parse_misc_ok_mono _ F _ _ Hpost3) by (unfold F; lia). cbn [pbind is_nil].
     rewrite El. reflexivity. }
   rewrite Hdoc. unfold DECL_LIMIT in Hcnt. unfold NS_LIMIT. rewrite Hcnt. reflexivity.
